@@ -216,8 +216,8 @@ def catalogue(rng, tier, dims=("homogeneous", "spatial_1D", "spatial_2D"), confs
             # supercooled and some grid point lies between T_eq_l and T_m
             over.setdefault("solution", {})["solid_fraction"] = 0.2
             prog.update(start=rng.choice([10, 15]), rate=rng.choice([1.0, 2.0]) / 60, holds=[]); K = 400; h = 0.06
-        if isinstance(cn, (int, float)) and not isinstance(cn, bool):
-            cnT = cn                     # an explicit trigger temperature (0 included)
+        if isinstance(cn, (int, float, np.integer, np.floating)) and not isinstance(cn, bool):
+            cnT = cn                     # an explicit trigger temperature (0 included; python or numpy scalar)
             if dim == "homogeneous" and cn > -2:
                 # hardly any supercooling at the trigger: freezing takes long -- strong shelf contact and a long process so that the run completes
                 K = 100; prog["t_tot"] = 5 * 3600.0; tt = prog["t_tot"]
@@ -293,6 +293,40 @@ def flux_2d(S, Ttop):
         return np.zeros_like(Ttop)
     p = U.vapour_pressure_solid(Ttop)
     return U.vapour_flux(c["kappa"], c["m_water"], c["k_B"], c["p_vac"], p, Ttop, Ttop)
+
+
+def resim_cooling_1d(S, dt, seed=0, max_steps=200000):
+    """An independent numpy re-statement of the 1D cooling stage (shelf / jacket-free, no evaporation): every step is simulated and the hazard
+    integral accumulated on EVERY step, whatever the run's saving stride.  Returns (nucleation step, field at that step [K], E history length)."""
+    import scipy.integrate as si
+    from scipy.stats import norm
+    c = S.const
+    Nz = 30
+    z = np.linspace(0, c["height"], Nz)
+    dz = c["height"] / Nz
+    lam0 = c["solid_fraction"] * c["lambda_s"] + (1 - c["solid_fraction"]) * c["lambda_w"]
+    cfac = lam0 / (c["cp_solution"] * c["rho_l"]) * dt / dz ** 2
+    K = S.k["s0"]
+    Teql = c["T_eq"] + 273.15 - c["depression"]
+    st = np.random.get_state()
+    np.random.seed(2024); kb = 10 ** (-(c["a"] + norm.ppf(np.random.rand()) * c["c"]))
+    np.random.seed(seed); F = np.random.random()
+    np.random.set_state(st)
+    shelf = np.asarray(S.opcond.tempProfile(dt), dtype=float) + 273.15
+    T = np.full(Nz, S.opcond.cooling["start"] + 273.15)
+    E = 0.0
+    for i, Tsh in enumerate(shelf[:max_steps]):
+        Tb = T[0] + K * (Tsh - T[0]) * dz / lam0
+        new = np.empty(Nz)
+        new[0] = T[0] + cfac * (T[1] - 2 * T[0] + Tb)
+        new[1:-1] = T[1:-1] + cfac * (T[2:] - 2 * T[1:-1] + T[:-2])
+        new[-1] = T[-1] + cfac * (T[-1] - 2 * T[-1] + T[-2])
+        T = new
+        J = np.where(T < Teql, kb * np.abs(Teql - T) ** c["b"], 0.0)
+        E += c["A"] * si.simpson(J, x=z) * dt
+        if 1 - np.exp(-E) > F:
+            return i, T, i + 1
+    return None, T, len(shelf)
 
 
 def every_step_saved(S, dt):
